@@ -355,6 +355,7 @@ struct Saved {
     int source = -1;     // index of the Saved the writer was loaded from (-1 none)
     bool premise_broken = false; // a frame outside the documented shapes had been accepted before this save
     bool complete = false;       // every frame carried exactly the declared points and channels
+    bool api_lineage = true;     // the content originates from API construction (possibly through restarts), not from an external file
     std::vector<SnapFrame> model;
 };
 
@@ -384,6 +385,7 @@ private:
     uint64_t th = 0xcbf29ce484222325ULL;
     std::string lastWhat; // what() of the last exception thrown by the object
     std::string ctxTag;   // context of the call being checked (becomes part of C05 keys)
+    bool api_lineage = true;
 
     bool on(uint32_t o) const { return (cfg.oracles & o) != 0; }
     void violate(const char *prop, const std::string &key, const std::string &detail) {
@@ -514,7 +516,7 @@ void World::afterCall(const Step &st, bool threw, const std::string &exc, const 
 void World::doNew() {
     obj.reset();
     obj.reset(new ezc3d::c3d());
-    gen = 0; pristine = false; loaded_from = -1; i5 = true; premise_broken = false; model.clear();
+    gen = 0; pristine = false; loaded_from = -1; i5 = true; premise_broken = false; model.clear(); api_lineage = true;
     ++version;
 }
 
@@ -581,7 +583,7 @@ void World::doLoad(const Step &st, StepRecord &rec) {
     if (ok) {
         cur = take_snapshot(*obj);
         gen = 1; pristine = true; loaded_from = -1;
-        premise_broken = false; model = cur.frames;
+        premise_broken = false; model = cur.frames; api_lineage = false;
         std::string f;
         i5 = check_c05(cur, true, &f).empty(); // I5 only claimed for histories in which it held after the load
         // register the external file as "saved" so that generations can be tracked
@@ -796,6 +798,7 @@ void World::buildInto(CallerFrame &cf, int dev, Rng &r, int64_t nsubOverride) {
         if (!nsub) nsub = 1;
     }
     if (nsubOverride > 0) nsub = static_cast<size_t>(nsubOverride);
+    if (nsub > 12) nsub = 12; // late rate changes can ask for hundreds of sub-frames per frame: keep a run cheap (such a frame deviates)
     switch (dev) {
     case DEV_POINT_MISSING: if (!pn.empty()) pn.erase(pn.begin() + static_cast<long>(r.below(pn.size()))); break;
     case DEV_POINT_EXTRA: pn.push_back("extra_" + tos(r.below(1000))); break;
@@ -1152,7 +1155,7 @@ void World::doSave(const Step &st, StepRecord &rec) {
     if (good && premise_broken) probe("save.premise-broken");
     if (good && !stop && on(ORC_C03) && !premise_broken && frames_complete(cur)) {
         std::string fc, d = c03_check(img, cur, &fc);
-        if (!d.empty()) violate("C03", fc + (gen == 0 ? "/created" : "/loaded"), d);
+        if (!d.empty()) violate("C03", fc + (api_lineage ? "/created" : "/loaded"), d);
     }
     if (good && !stop && on(ORC_C04) && pristine && gen >= 2 && loaded_from >= 0) {
         if (saved[static_cast<size_t>(loaded_from)].image != img)
@@ -1161,7 +1164,7 @@ void World::doSave(const Step &st, StepRecord &rec) {
     }
     if (good) {
         Saved sv;
-        sv.path = path; sv.snap = cur; sv.image = img; sv.writer_gen = gen; sv.writer_pristine = pristine; sv.source = loaded_from; sv.premise_broken = premise_broken; sv.complete = frames_complete(cur); sv.model = model;
+        sv.path = path; sv.snap = cur; sv.image = img; sv.writer_gen = gen; sv.writer_pristine = pristine; sv.source = loaded_from; sv.premise_broken = premise_broken; sv.complete = frames_complete(cur); sv.model = model; sv.api_lineage = api_lineage;
         // replace an older entry for the same path
         bool rep = false;
         for (auto &s : saved) if (s.path == path) { s = sv; rep = true; break; }
@@ -1197,6 +1200,7 @@ void World::doReload(const Step &st, StepRecord &rec) {
     if (gen < 1) gen = 1;
     pristine = true;
     loaded_from = static_cast<int>(si);
+    api_lineage = sv.api_lineage;
     premise_broken = sv.premise_broken; // a file written from an out-of-premise object stays out of premise
     model = cur.frames;
     if (enabled && (api || sv.writer_pristine)) {
